@@ -5,26 +5,26 @@ CONSTANTS
   Biases = {3}
   Hidden = {5, 6}
   OutSet = {8, 9}
-  Shapes = {{1, 5, 8}}
+  Shapes = {{1, 5, 8}, {1, 3, 8}}
   Weights <- W2
   PatternW = TRUE
   TdFlags = {FALSE}
   InVecs <- VecsOne
   OrderKinds = {"BIHO"}
-  ActSchemes <- SchemesLinear
-  LinkCaps = {2}
-  MinLinks = 1
+  ActSchemes <- SchemesStep
+  LinkCaps = {1}
+  MinLinks = 0
   Canonical = TRUE
   AcyclicOnly = TRUE
-  Tight = TRUE
-  ModuleActs = {"mul"}
+  Tight = FALSE
+  ModuleActs = {"max"}
   ModuleActs2 = {"max"}
-  MaxMods = 2
+  MaxMods = 1
   InsSizes = {1}
-  OutArities = {0, 1, 2}
+  OutArities = {1}
   SensorIns = TRUE
-  FwdKs = {1, 2}
-  ActKs = {2}
+  FwdKs = {0, 2}
+  ActKs = {0, 1}
   Act0Ks = {}
   UseRec = FALSE
   LoadFirst = TRUE
